@@ -14,13 +14,21 @@
 //	    than T Next calls begun; unl: before its duration elapsed), runs in which the callback fired,
 //	    runs in which it fired more than once.
 //
-//	start <perinst 0|1> <T> <rps-spec> <A> <K> <startup-spec> <shoot_us> <cancel_ms> <failgun>
+//	drain <spec>
+//	    the real schedule built from <spec>, NOT Start()ed (the engine never starts the startup schedule:
+//	    it self-starts at the first Next), drained.  Observation:
+//	    "<total> <rle of exact offsets relative to the first token> <anchored 0|1> <rle of the offsets of
+//	    the configured profile as this harness computes them>"; anchored: the first token is not earlier
+//	    than (instant just before the first Next) + its configured offset (and within 200 ms of it).
+//
+//	start <perinst 0|1> <T> <rps-spec> <A> <K> <startup-spec> <shoot_us> <cancel_ms> <failgun> <provrun>
 //	    runs the real engine.Engine (one pool). T = tokens of one rps profile (-1: not finite),
 //	    A = ammo items, K = tokens of the startup profile, cancel_ms > 0: the run context is
 //	    cancelled after that many ms, failgun = k > 0: the k-th NewGun call fails (1 = the warm-up
-//	    gun, 2 = the first instance, ...).  Observation:
+//	    gun, 2 = the first instance, ...).  provrun: 0 = the provider's Run blocks until the run ends,
+//	    1 = it returns nil at once (all ammo already queued), 2 = it returns nil after 3 ms.  Observation:
 //	    "<outcome> <InstanceStart> <InstanceFinish> <ids> <distinct> <notahead> <ammo_out> <rps_fin>
-//	     <ext> <fail> <endclass> <conserved> <late>"
+//	     <ext> <fail> <endclass> <conserved> <late> <onprofile>"
 //	    outcome    ok | cancelled | failed | hang
 //	    ids        sorted InstanceIDs the guns were bound with ("-" if none)
 //	    notahead   1 iff every gun with id k was bound at or after the instant of the k-th startup token
@@ -31,6 +39,8 @@
 //	    endclass   exhausted (startup schedule's Next returned !ok) | cut
 //	    late       1 iff a gun was bound more than 100 ms after the first ammo_out / true rps_fin event
 //	               (once the start context is cancelled the loop may create at most one more instance)
+//	    onprofile  1 iff every gun with id k was bound at or after (instant just before the first Next of the
+//	               startup schedule) + (offset of token k in the CONFIGURED startup profile)
 //	    conserved  1|0 shots+discards == min(tokens, A) (only for finite T, at least one instance, no ext/fail), else -
 package main
 
@@ -63,6 +73,7 @@ type provider struct {
 	left    int
 	ammoOut atomic.Bool
 	cause   *causeClock
+	runMode int
 }
 
 // instant of the first event that makes the engine cancel instance start
@@ -79,7 +90,20 @@ func (c *causeClock) mark() {
 	c.mu.Unlock()
 }
 
-func (p *provider) Run(ctx context.Context, _ core.ProviderDeps) error { <-ctx.Done(); return nil }
+func (p *provider) Run(ctx context.Context, _ core.ProviderDeps) error {
+	switch p.runMode {
+	case 1: // everything is queued already: Run is done, the ammo is still there
+		return nil
+	case 2:
+		select {
+		case <-time.After(3 * time.Millisecond):
+		case <-ctx.Done():
+		}
+		return nil
+	}
+	<-ctx.Done()
+	return nil
+}
 func (p *provider) Acquire() (core.Ammo, bool) {
 	p.mu.Lock()
 	defer p.mu.Unlock()
@@ -249,10 +273,16 @@ type startSched struct {
 	mu        sync.Mutex
 	toks      []time.Time
 	exhausted bool
+	firstCall time.Time // instant just before the first Next
 }
 
 func (s *startSched) Start(t time.Time) { s.inner.Start(t) }
 func (s *startSched) Next() (time.Time, bool) {
+	s.mu.Lock()
+	if s.firstCall.IsZero() {
+		s.firstCall = time.Now()
+	}
+	s.mu.Unlock()
 	t, ok := s.inner.Next()
 	s.mu.Lock()
 	if ok {
@@ -292,6 +322,95 @@ func buildSched(spec string) core.Schedule {
 		}
 	}
 	return schedule.NewComposite(parts...)
+}
+
+// offsets (from the start of the profile) of the tokens of the CONFIGURED profile, as the
+// documentation describes the profile kinds; checked against the Coq model by the `drain` cases
+func expectedOffsets(spec string) []time.Duration {
+	var out []time.Duration
+	var cur time.Duration
+	for _, p := range strings.Split(spec, "+") {
+		f := strings.Split(p, ":")
+		at := func(i int) int64 { v, _ := strconv.ParseInt(f[i], 10, 64); return v }
+		switch f[0] {
+		case "once":
+			for i := int64(0); i < at(1); i++ {
+				out = append(out, cur)
+			}
+		case "const":
+			d := time.Duration(at(2)) * time.Millisecond
+			if at(1) > 0 {
+				n := at(1) * at(2) / 1000
+				for i := int64(0); i < n; i++ {
+					out = append(out, cur+time.Duration(i*(1000000000/at(1))))
+				}
+			}
+			cur += d
+		case "istep":
+			d := time.Duration(at(4)) * time.Millisecond
+			for i := int64(0); i < at(1); i++ {
+				out = append(out, cur)
+			}
+			for lvl := at(1) + at(3); lvl <= at(2); lvl += at(3) {
+				cur += d
+				for i := int64(0); i < at(3); i++ {
+					out = append(out, cur)
+				}
+			}
+		}
+	}
+	return out
+}
+
+func rleDur(l []time.Duration, base time.Duration) string {
+	if len(l) == 0 {
+		return "-"
+	}
+	var sb strings.Builder
+	cnt := 0
+	var cur time.Duration
+	flush := func() {
+		if cnt > 0 {
+			if sb.Len() > 0 {
+				sb.WriteByte(',')
+			}
+			fmt.Fprintf(&sb, "%d@%d", cnt, int64(cur))
+		}
+	}
+	for _, d := range l {
+		o := d - base
+		if cnt > 0 && o != cur {
+			flush()
+			cnt = 0
+		}
+		cur = o
+		cnt++
+	}
+	flush()
+	return sb.String()
+}
+
+func runDrain(f []string) string {
+	s := buildSched(f[1])
+	exp := expectedOffsets(f[1])
+	tcall := time.Now()
+	var offs []time.Duration
+	for i := 0; i < 1000000; i++ {
+		t, ok := s.Next()
+		if !ok {
+			break
+		}
+		offs = append(offs, t.Sub(tcall))
+	}
+	anchored := true
+	base := time.Duration(0)
+	if len(offs) > 0 {
+		base = offs[0]
+		if len(exp) > 0 && (offs[0] < exp[0] || offs[0] > exp[0]+200*time.Millisecond) {
+			anchored = false
+		}
+	}
+	return fmt.Sprintf("%d %s %s %s", len(offs), rleDur(offs, base), vh.B(anchored), rleDur(exp, 0))
 }
 
 func runIstep(f []string) string {
@@ -343,10 +462,11 @@ func runStart(f []string) string {
 	shootUs, _ := strconv.Atoi(f[7])
 	cancelMs, _ := strconv.Atoi(f[8])
 	failGun, _ := strconv.Atoi(f[9])
+	provRun, _ := strconv.Atoi(f[10])
 
 	w := &world{}
 	cc := &causeClock{}
-	prov := &provider{left: A, cause: cc}
+	prov := &provider{left: A, cause: cc, runMode: provRun}
 	ag := &aggr{}
 	var rpsFin, rpsFalse, failed atomic.Bool
 	var gunCalls atomic.Int64
@@ -419,7 +539,10 @@ func runStart(f []string) string {
 	st.mu.Lock()
 	toks := append([]time.Time(nil), st.toks...)
 	exhausted := st.exhausted
+	firstCall := st.firstCall
 	st.mu.Unlock()
+	exp := expectedOffsets(f[6])
+	onProfile := true
 
 	sort.Slice(binds, func(i, j int) bool { return binds[i].id < binds[j].id })
 	distinct := true
@@ -432,6 +555,9 @@ func runStart(f []string) string {
 		}
 		if b.id < 0 || b.id >= len(toks) || b.at.Before(toks[b.id]) {
 			notAhead = false
+		}
+		if b.id < 0 || b.id >= len(exp) || firstCall.IsZero() || b.at.Before(firstCall.Add(exp[b.id])) {
+			onProfile = false
 		}
 	}
 	late := false
@@ -472,9 +598,9 @@ func runStart(f []string) string {
 	} else if rpsFin.Load() && !perInst {
 		rpsF = "1"
 	}
-	return fmt.Sprintf("%s %d %d %s %s %s %s %s %s %s %s %s %s", outcome, started, metrics.InstanceFinish.Get(),
+	return fmt.Sprintf("%s %d %d %s %s %s %s %s %s %s %s %s %s %s", outcome, started, metrics.InstanceFinish.Get(),
 		idsS, vh.B(distinct), vh.B(notAhead), vh.B(prov.ammoOut.Load()), rpsF,
-		vh.B(extV), vh.B(failed.Load()), endclass, conserved, vh.B(late))
+		vh.B(extV), vh.B(failed.Load()), endclass, conserved, vh.B(late), vh.B(onProfile))
 }
 
 func runCase(c string) string {
@@ -482,8 +608,10 @@ func runCase(c string) string {
 	switch {
 	case f[0] == "istep" && len(f) == 5:
 		return runIstep(f)
-	case f[0] == "start" && len(f) == 10:
+	case f[0] == "start" && len(f) == 11:
 		return runStart(f)
+	case f[0] == "drain" && len(f) == 2:
+		return runDrain(f)
 	case f[0] == "fincb" && len(f) == 4:
 		return runFincb(f)
 	}
@@ -513,6 +641,18 @@ func startupCount(spec string) int {
 }
 
 func genStartup(r *vh.Rand) string {
+	s := genStartup1(r)
+	// empty leading parts: a pause (const with ops 0), once 0
+	switch r.Intn(6) {
+	case 0:
+		return fmt.Sprintf("const:0:%d+%s", r.PickInt([]int{5, 20, 40}), s)
+	case 1:
+		return "once:0+" + fmt.Sprintf("const:0:%d+%s", r.PickInt([]int{10, 30}), s)
+	}
+	return s
+}
+
+func genStartup1(r *vh.Rand) string {
 	switch r.Intn(9) {
 	case 0, 1:
 		return fmt.Sprintf("once:%d", r.Range(1, 12))
@@ -554,9 +694,14 @@ func gen(r *vh.Rand, tier string) []string {
 		}
 		out = append(out, fmt.Sprintf("istep %d %d %d %d", from, to, step, r.PickInt([]int{1, 7, 10, 1000, 60000})))
 	}
+	drained := map[string]bool{}
 	for i := 0; i < ns; i++ {
 		st := genStartup(r)
 		K := startupCount(st)
+		if !drained[st] {
+			drained[st] = true
+			out = append(out, "drain "+st)
+		}
 		perInst := r.Bool()
 		var T, A, shoot, cancelMs, failGun int
 		var rps string
@@ -620,7 +765,8 @@ func gen(r *vh.Rand, tier string) []string {
 			A = 100000
 			failGun = r.Range(1, K+2)
 		}
-		out = append(out, fmt.Sprintf("start %s %d %s %d %d %s %d %d %d", vh.B(perInst), T, rps, A, K, st, shoot, cancelMs, failGun))
+		provRun := r.PickInt([]int{0, 0, 1, 1, 2})
+		out = append(out, fmt.Sprintf("start %s %d %s %d %d %s %d %d %d %d", vh.B(perInst), T, rps, A, K, st, shoot, cancelMs, failGun, provRun))
 	}
 	return out
 }
